@@ -51,6 +51,10 @@ def _case(draw, n_min=1, n_max=4):
     route = draw(st.sampled_from(["writeSetFL", "class", "potable:setfl", "potable:lammps_eam_alloy"]))
     m = draw(gen.eam_model("eam", n_min, n_max, depth=1, pycallables=not route.startswith("potable")))
     m["route"] = route
+    m["share_callables"] = draw(st.booleans())
+    if m["share_callables"] and not route.startswith("potable") and m["embed"] and m["density"] and draw(st.booleans()):
+        # the same definition as embedding function of one element and density of another
+        m["density"][0][1] = m["embed"][-1][1]
     return m
 
 
@@ -261,7 +265,9 @@ def check_case(m):
         elif route.startswith("potable"):
             out = libroute.write_text(libroute.read_text(ctx))
         else:
-            pairs, eams = eamtab.api_objects(m)
+            pairs, eams = eamtab.api_objects(m, share=bool(m.get("share_callables")))
+            if m.get("share_callables"):
+                cls.append("shared_callables")
             api_order = [e.species for e in eams]
             nr, dr, nrho, drho = eamtab.grids(m)
             fp = io.StringIO()
